@@ -219,12 +219,30 @@ def run(ctx: Ctx) -> None:
     # sites (abbreviated parameter, abbreviated return type) must agree on it
     sites16 = []
     for fname16, fn16 in pm.methods.items():
+        single_defs: Dict[str, List[ast.AST]] = {}
+        for st16 in walk_local(fn16):
+            if isinstance(st16, ast.Assign) and len(st16.targets) == 1 and isinstance(st16.targets[0], ast.Name):
+                single_defs.setdefault(st16.targets[0].id, []).append(st16.value)
         for c in walk_local(fn16):
-            if isinstance(c, ast.Call) and isinstance(c.func, ast.Attribute) and c.func.attr in ("append", "extend") and isinstance(c.func.value, ast.Attribute) and c.func.value.attr == "params" \
-                    and isinstance(c.func.value.value, ast.Subscript) and isinstance(c.func.value.value.value, ast.Name):
-                sl = c.func.value.value.slice
-                idx = -sl.operand.value if isinstance(sl, ast.UnaryOp) and isinstance(sl.op, ast.USub) and isinstance(sl.operand, ast.Constant) else sl.value if isinstance(sl, ast.Constant) else None
-                sites16.append((fname16, c, idx))
+            if isinstance(c, ast.Call) and isinstance(c.func, ast.Attribute) and c.func.attr in ("append", "extend") and isinstance(c.func.value, ast.Attribute) and c.func.value.attr == "params":
+                # the header that receives the parameter: `<list>[i]` directly, or a local bound to one (through a conditional expression)
+                leaves: List[ast.AST] = []
+                todo = [c.func.value.value]
+                hops = 0
+                while todo and hops < 8:
+                    hops += 1
+                    e16 = todo.pop()
+                    if isinstance(e16, ast.IfExp):
+                        todo += [e16.body, e16.orelse]
+                    elif isinstance(e16, ast.Name) and len(single_defs.get(e16.id, [])) == 1 and isinstance(single_defs[e16.id][0], (ast.IfExp, ast.Subscript)):
+                        todo.append(single_defs[e16.id][0])
+                    else:
+                        leaves.append(e16)
+                for lf in leaves:
+                    if isinstance(lf, ast.Subscript) and isinstance(lf.value, ast.Name):
+                        sl = lf.slice
+                        idx = -sl.operand.value if isinstance(sl, ast.UnaryOp) and isinstance(sl.op, ast.USub) and isinstance(sl.operand, ast.Constant) else sl.value if isinstance(sl, ast.Constant) else None
+                        sites16.append((fname16, c, idx))
     for fname16, c, idx in sites16:
         ctx.ob("R1.6", f"parser:CxxParser.{fname16}|`{short(c, 50)}` adds to the last template header", idx == -1,
                msg=f"`{short(c, 60)}` adds a promoted (abbreviated) template parameter to header [{idx}] of a list of template headers; the declaration's own header is the last one: with 'template <typename T> template <typename U> void A<T>::f(auto x)' the invented parameter is reported on the class's header",
